@@ -7,7 +7,7 @@ import torch
 import pytorch_wavelets as pw
 from pytorch_wavelets import _verif
 
-from . import tracecheck, dwtlib
+from . import tracecheck, dwtlib, hookmap
 from .common import seed
 
 PERFIX = {"PerFix": True}
@@ -28,14 +28,7 @@ def record_dwt1(tier):
         [n for n in pywt.wavelist(kind="discrete") if pywt.Wavelet(n).dec_len <= 40]
 
     def sink(ev, f):
-        if ev == "DWT1DForward.level":
-            buf.append({"ev": "fwd.level", "level": int(f["level"]), "N": int(f["N"])})
-        elif ev == "afb1d.out":
-            buf.append({"ev": "afb1d.out", "M": int(f["M"])})
-        elif ev == "DWT1DInverse.level":
-            buf.append({"ev": "inv.level", "lo": int(f["lo"]), "hi": int(f["hi"])})
-        elif ev == "sfb1d":
-            buf.append({"ev": "sfb1d", "M": int(f["M"])})
+        hookmap.dwt1(ev, f, buf)
     _verif.set_sink(sink)
     try:
         for name in names:
@@ -108,14 +101,7 @@ def record_dtcwt(tier):
     events, cases, buf = [], [], []
 
     def sink(ev, f):
-        if ev == "DTCWTForward.extend2":
-            buf.append({"ev": "extend2", "rows": int(f["rows"]), "cols": int(f["cols"]), "ext_rows": bool(f["ext_rows"]), "ext_cols": bool(f["ext_cols"])})
-        elif ev == "DTCWTForward.extend4":
-            buf.append({"ev": "extend4", "level": int(f["level"]), "rows": int(f["rows"]), "cols": int(f["cols"]),
-                        "ext_rows": bool(f["ext_rows"]), "ext_cols": bool(f["ext_cols"])})
-        elif ev == "DTCWTInverse.crop":
-            buf.append({"ev": "crop", "level": int(f["level"]), "rows": int(f["rows"]), "cols": int(f["cols"]), "hp_rows": int(f["hp_rows"]),
-                        "hp_cols": int(f["hp_cols"]), "crop_rows": bool(f["crop_rows"]), "crop_cols": bool(f["crop_cols"])})
+        hookmap.dtcwt(ev, f, buf)
     _verif.set_sink(sink)
     try:
         for _ in range(60 if tier == "quick" else 600):
@@ -186,21 +172,7 @@ def record_dwt2(tier):
     pend = {}
 
     def sink(ev, f):
-        if ev == "DWTForward.level":
-            buf.append({"ev": "fwd.level", "level": int(f["level"]), "H": int(f["H"]), "W": int(f["W"])})
-        elif ev == "afb1d.out":
-            if int(f["dim"]) == 3:
-                pend["mw"] = int(f["M"])
-            else:
-                buf.append({"ev": "level.out", "mh": int(f["M"]), "mw": pend.pop("mw", -1)})
-        elif ev == "DWTInverse.level":
-            buf.append({"ev": "inv.level", "lo_h": int(f["lo"][0]), "lo_w": int(f["lo"][1]), "hi_h": int(f["hi"][0]), "hi_w": int(f["hi"][1])})
-        elif ev == "sfb1d":
-            # three calls per level: (low, lh) and (hl, hh) along dim 2, then (lo, hi) along dim 3
-            if int(f["dim"]) == 2 and "mh" not in pend:
-                pend["mh"] = int(f["M"])
-            elif int(f["dim"]) == 3:
-                buf.append({"ev": "level.in", "mh": pend.pop("mh", -1), "mw": int(f["M"])})
+        hookmap.dwt2(ev, f, buf, pend)
     _verif.set_sink(sink)
     names = ["haar", "db2", "db4", "sym5", "bior2.2", "coif1"] if tier == "quick" else \
         [n for n in pywt.wavelist(kind="discrete") if pywt.Wavelet(n).dec_len <= 24]
